@@ -225,8 +225,13 @@ func (s *Syncer[H]) setLocalHead(ctx context.Context, netHead H) {
 func (s *Syncer[H]) incomingNetworkHead(ctx context.Context, head H) error {
 	// ensure there is no racing between network head candidates
 	// additionally ensures there is only one bifurcation attempt at a time
+	verifYield("incoming:lock")
 	s.incomingMu.Lock()
-	defer s.incomingMu.Unlock()
+	verifYield("incoming:acquired")
+	defer func() {
+		s.incomingMu.Unlock()
+		verifYield("incoming:released")
+	}()
 
 	if err := s.verify(ctx, head); err != nil {
 		return err
